@@ -2318,9 +2318,7 @@ def s_read_int(ex, st, call):
         return ex.mk_enum(call.dst_ty, 'Err', [err])
     want = kind if kind in ('u8', 'i8') else kind + endian_of(call)
     sk, sv = segs[pos][0], segs[pos][1]
-    if sk in ('f32le', 'f32be') and want.startswith('f32'):
-        pass
-    elif sk != want:
+    if sk != want:
         st.emit(Ev('CODEC_MISMATCH', obj=buf, args={'wrote': sk, 'reads': want, 'pos': pos}, site=call.site))
         from .mirparse import SCALAR_TYS
         sv = z3.BitVec(f'garbage!{next(st.fresh)}', {'u8': 8, 'i8': 8, 'u16': 16, 'u32': 32, 'u64': 64, 'f32': 32, 'f64': 64}[kind])
